@@ -4,6 +4,30 @@ import json
 ALL = [f'C{i:02d}' for i in range(1, 21)]
 
 CHECKS = {
+ 'C14': dict(
+  category='model_checking',
+  text='spec/Triu.tla: PackOrder(n), closed-form position, bijection onto the upper triangle and Unpack(Pack(M)) = M for symmetric M with position-revealing entries, model-checked by TLC for every n <= 24 (40); get_triu of a position-revealing matrix must list exactly PackOrder(n) (n up to 128 (512) with the same definition), fill_triu(get_triu(M)) == M bit-wise for 4 floating dtypes and contiguous / strided / transposed inputs; symmetric allreduce, broadcast and allreduce_bucketed on simdist equal the dense ones and transfer n(n+1)/2 elements; non-square / non-2-D tensors raise NonSquareTensorError with an empty event trace.',
+  ref='DESIGN.md 4.7, 5 (C14)',
+  note='Beyond the TLC bound the order comes from the same definition evaluated in python.',
+  technique='TLA+ spec (Triu.tla) + TLC; index map replayed into get_triu / fill_triu and the communicator on simdist'),
+ 'C15': dict(
+  category='model_checking',
+  text='spec/Layout.tla: conv patch index map, feature order = combined-gradient column order = weight.view(out,-1) order, bias column last, factor shapes, with PatchInjective / FeatureIsColumn / IndicesValid checked by TLC over all geometry tuples in scope (1024 quick; rectangular kernels, strides, paddings, sizes not divisible by the stride, bias on/off); for each tuple the real Conv2dModuleHelper is compared with the emitted index map (position-revealing inputs), with torch unfold, with the column map (position-revealing gradients), set_grad(get_grad()) identity, advertised vs produced factor shapes, and the float64 identity grad = sum outer(g-row, patch-row); linear helpers for inputs of rank 2..4.',
+  ref='DESIGN.md 4.7, 5 (C15)',
+  note='dilation 1, groups 1; small spatial sizes.',
+  technique='TLA+ spec (Layout.tla) + TLC tuple enumeration, one implementation test per state'),
+ 'C19': dict(
+  category='model_checking',
+  text='spec/Sched.tla (six parameters, every subset scheduled, distinct dyadic factor function per parameter, explicit / implicit step argument, int() truncation, refusal of callables, exponential-decay schedule as a rational function with range and monotonicity) model-checked by TLC; every maximal behaviour to depth 4 (5) replayed on a real LambdaParamScheduler + KFACPreconditioner with all six properties compared exactly after every action; exp_decay_factor_averaging compared with the rational value for 8 caps and k < 200 (5000).',
+  ref='DESIGN.md 4.7, 5 (C19)',
+  note='Factor functions restricted to a dyadic family so that float arithmetic is exact.',
+  technique='TLA+ spec (Sched.tla) + TLC path enumeration with exact lock-step replay'),
+ 'C20': dict(
+  category='model_checking',
+  text='spec/Tracing.tla (trace table state machine: calls that return / raise, get(average, max_history), clear, two functions sharing a name) with its properties model-checked by TLC; all maximal behaviours to depth 4 and simulated behaviours to depth 9 (14) replayed into kfac.tracing under a scripted dyadic clock: identity of return values and exceptions, exact statistics, key order.',
+  ref='DESIGN.md 4.7, 5 (C20)',
+  note='max_history = 0 is outside the domain; sync=True barriers not exercised.',
+  technique='TLA+ spec (Tracing.tla) + TLC behaviours replayed with a scripted clock'),
  'C02': dict(
   category='model_checking',
   text='spec/KfacConfig.tla enumerates the configuration lattice with the constructor\'s acceptance rule (TLC; every tuple in a sample is replayed into the real constructor on pretended ranks); for valid distributed configurations (stratified over W, k, method, prediv, colocate; bucket capacity classes, symmetry, heuristics) TLC-generated behaviours of the reference machine spec/KfacRef.tla (strict iteration discipline, multi-step, F != I, accumulation, eval passes) are executed by the real KFACPreconditioner on simdist; per step every rank\'s gradients must equal the reference term interpreted over the union batch (refinement to KfacRef at step boundaries), be bit-identical across ranks and across 3 scheduling policies, equal a REAL single-process run on the union batch (5e-4), with no in-flight buffer modification and no communication monitor.',
